@@ -380,9 +380,13 @@ class Interp(ExprMixin):
                 it = itt[1]
         return it, target, keyed
 
-    def s_For(self, st, it=UNBOUND):
-        if it is UNBOUND:
+    _NO_ITER = object()
+
+    def s_For(self, st, it=_NO_ITER):
+        if it is Interp._NO_ITER:
             it = self.eval(st.iter)
+        if it == UNBOUND:
+            return None          # the alternative in which the iterable was never bound: nothing to walk
         if isinstance(it, tuple) and it and it[0] == "phi" and len(it) == 4:
             # the iterable was chosen by a conditional: the loop over each alternative, under its condition
             return self._branch(it[1], lambda: self.s_For(st, it[2]), lambda: self.s_For(st, it[3]))
